@@ -82,6 +82,7 @@ struct PipeCfg
   bool want_log = false;
   long in_fail_at = -1; // >= 0: reads of the input stream at or beyond this offset fail with EIO
   bool in_fail_once = false; // ... only the first of them (transient error; stdio's error flag stays set)
+  long out_fail_at = -1; // >= 0: the output stream takes this many bytes in all, then writes fail (device full)
   long fail_new = -2; // >= 0: the n-th allocation of the code under test fails once (std::bad_alloc); -1: count only; -2: off
 };
 
